@@ -64,6 +64,15 @@ GoodFailsSame(L, vi, cd, key) ==
      /\ \E h \in 1..Len(L.good[j].codecs) : L.good[j].codecs[h] = cd
      /\ L.good[j].enc.st # "ok" /\ ExcKey("enc", L.good[j].enc) = key
 
+\* ... or with the same library error at the same path (JER / XER / GSER refuse a value whose mandatory extension
+\* addition is absent -- a finding of C02 / C20 -- before they reach the corrupted component)
+GoodFailsSameWay(L, vi, cd, e) ==
+  \E j \in 1..Len(L.good) :
+     /\ L.good[j].vi = vi /\ Has(L.good[j], "enc")
+     /\ \E h \in 1..Len(L.good[j].codecs) : L.good[j].codecs[h] = cd
+     /\ L.good[j].enc.st # "ok" /\ ExcKey("enc", L.good[j].enc) = ExcKey("enc", e)
+     /\ Has(L.good[j].enc, "pfx") /\ L.good[j].enc.pfx = e.pfx
+
 CorVerdict(L, f, o) ==
   LET c == L.cors[o.ci]
       e == o.enc
@@ -81,6 +90,8 @@ CorVerdict(L, f, o) ==
                 ELSE V("COR", "reject", kind \o ":" \o ExcKey("enc", e)))
      ELSE IF e.pfx = f.want THEN V("COR", "ok", "")
      ELSE IF e.pfx = DevWant(L, c) THEN V("COR", "dev", ToString({"DevPathRecursiveTypeName"}))
+     ELSE IF \A h \in 1..Len(o.codecs) : GoodFailsSameWay(L, c.vi, o.codecs[h], e)
+          THEN V("COR", "skip", "the uncorrupted value is already refused there: " \o e.pfx)
      ELSE V("COR", "reject", kind \o ": error path '" \o e.pfx \o "' but the component is at '" \o f.want \o "'")
 
 GoodVerdict(L, o) ==
